@@ -146,6 +146,12 @@ Theorem c06_one_digit_row_reader_refuted :
   /\ rows_recognised one_digit_rowreader ROW 9 = true.
 Proof. exact one_digit_rowreader_refuted. Qed.
 
+(** Round 5 (seeded/c06_8): a reader that looks the key up in a table precomputed for 2**4 rows does not know row16. *)
+Theorem c06_table_of_16_row_names_refuted :
+  rows_recognised table16_rowreader ROW 17 = false /\ read_row table16_rowreader (row_key ROW 16) = None
+  /\ rows_recognised table16_rowreader ROW 16 = true /\ rows_recognised table16_rowreader ROW 9 = true.
+Proof. exact table16_rowreader_refuted. Qed.
+
 (** Output values: as_keyvalue joins target, input, parameter, delay, times with ESC or with commas; parse chooses
     the separator by the presence of ESC, demands five fields and re-joins extra commas into the parameter.  Exact
     for every output none of whose fields contains ESC and, in the comma form, whose fields other than the parameter
